@@ -105,19 +105,34 @@ theorem smboPropose_spec {cfg : SmboCfg} {sp : Space} {f : Pos → Bool} {s : Sm
           rw [htape]; exact a.trans (List.suffix_cons _ _)
     · simp at h
     · simp at h
-  · split at h
-    · rename_i trained rest0 htape
+  · cases htt : trainTape cfg s with
+    | error e => rw [htt] at h; simp at h
+    | ok tape1 =>
+      rw [htt] at h
+      simp only at h
+      have hs1 : tape1 <:+ s.tape := by
+        unfold trainTape at htt
+        split at htt
+        · cases hm : moveRandomLoop s.tape with
+          | error e => rw [hm] at htt; simp at htt
+          | ok a =>
+            rw [hm] at htt
+            simp only [Except.ok.injEq] at htt
+            subst htt
+            exact (moveRandomLoop_spec (show moveRandomLoop s.tape = .ok (a.1, a.2) from hm)).1
+        · simp only [Except.ok.injEq] at htt; subst htt; exact List.suffix_refl _
       split at h
-      · obtain ⟨a, b, c⟩ := moveRandomLoop_spec h
-        have hsub : rest0 <:+ s.tape := by rw [htape]; exact List.suffix_cons _ _
-        exact ⟨a.trans hsub, ht.rnd p (hsub.subset b), (ht.feas p true (hsub.subset c)).symm⟩
-      · split at h
-        · simp at h
-        · obtain ⟨a, b⟩ := proposeByModel_spec h
-          refine ⟨?_, hc p b⟩
-          rw [htape]; exact a.trans (List.suffix_cons _ _)
-    · simp at h
-    · simp at h
+      · rename_i trained rest0
+        have hsub : rest0 <:+ s.tape := (List.suffix_cons _ _).trans hs1
+        split at h
+        · obtain ⟨a, b, c⟩ := moveRandomLoop_spec h
+          exact ⟨a.trans hsub, ht.rnd p (hsub.subset b), (ht.feas p true (hsub.subset c)).symm⟩
+        · split at h
+          · simp at h
+          · obtain ⟨a, b⟩ := proposeByModel_spec h
+            exact ⟨a.trans hsub, hc p b⟩
+      · simp at h
+      · simp at h
 
 /-- the run invariant -/
 structure Inv (sp : Space) (f : Pos → Bool) (tape0 : Tape) (initL0 : List Pos) (d : DState SmboSt) : Prop where
